@@ -14,9 +14,17 @@
 
 namespace vb {
 
+#ifdef VH_GRAPH_ALT
+// -DVH_GRAPH_ALT: another legal graph type for the same harness - vertex property present, edge_weight NOT the first edge
+// property (an edge_index in front of it). The entry points are templates over the graph type.
+template<class W>
+using GraphT = boost::adjacency_list<boost::vecS, boost::vecS, boost::undirectedS, boost::property<boost::vertex_name_t, int>,
+        boost::property<boost::edge_index_t, std::size_t, boost::property<boost::edge_weight_t, W>>>;
+#else
 template<class W>
 using GraphT = boost::adjacency_list<boost::vecS, boost::vecS, boost::undirectedS, boost::no_property,
         boost::property<boost::edge_weight_t, W>>;
+#endif
 
 // Optional hooks around the add_edge loop of Built (used by the MPI harness to control the heap layout, i.e. the
 // pointer order, of the edge property nodes). Out-edge vectors are reserved beforehand, so the edge-list nodes are the
@@ -45,7 +53,8 @@ struct Built {
         if (edge_alloc_begin()) edge_alloc_begin()(el.m());
         for (int k = 0; k < el.m(); ++k) {
             int i = order ? (*order)[k] : k;
-            auto r = boost::add_edge(el.e[i].first, el.e[i].second, (W) w[i], g);
+            auto r = boost::add_edge(el.e[i].first, el.e[i].second, g);
+            boost::put(boost::edge_weight, g, r.first, (W) w[i]);      // through the map: the weight need not be the first edge property
             edges[i] = r.first;
         }
         if (edge_alloc_end()) edge_alloc_end()();
